@@ -13,6 +13,9 @@ pub mod h_fin;
 pub mod h_api;
 pub mod h_count;
 pub mod h_trace;
+pub mod h_layout;
+#[cfg(feature = "cleaners")]
+pub mod h_clean;
 #[cfg(feature = "auto-collect")]
 pub mod h_policy;
 #[cfg(feature = "weak-ptrs")]
